@@ -73,7 +73,13 @@ def bracketAfter (line marker : Str) : Option Str :=
     let inner := rest.takeWhile (· != ']')
     if inner.isEmpty || inner.length == rest.length then none else some inner
 
-/-- `re.search(marker\s+([^\s#]+(?:\s+[^\s#]+)*))`: the words after the marker up to a `#` -/
+/-- the words of a rule list end at a word that begins a `//` comment (`(?!//)` in front of every word) -/
+def cutAtSlashes : Bool → Str → Str
+  | _, [] => []
+  | true, '/' :: '/' :: _ => []
+  | _, c :: s => c :: cutAtSlashes (isSpace c) s
+
+/-- `re.search(marker\s+((?!//)[^\s#]+(?:\s+(?!//)[^\s#]+)*))`: the words after the marker up to a `#` or a `//` comment -/
 def wordsAfter (caseInsensitive : Bool) (line marker : Str) : Option Str :=
   let hay := if caseInsensitive then lower line else line
   let mk := if caseInsensitive then lower marker else marker
@@ -84,7 +90,7 @@ def wordsAfter (caseInsensitive : Bool) (line marker : Str) : Option Str :=
     match rest with
     | c :: _ =>
       if !isSpace c then none else
-      let body := (rest.dropWhile isSpace).takeWhile (· != '#')
+      let body := cutAtSlashes true ((rest.dropWhile isSpace).takeWhile (· != '#'))
       let body := strip body
       if body.isEmpty then none else some body
     | [] => none
@@ -143,8 +149,54 @@ def hasBareIgnore : Str → Bool
     ("thailint:".toList.isPrefixOf (c :: s) && bareIgnoreAfter ((c :: s).drop 9)) ||
     ("design-lint:".toList.isPrefixOf (c :: s) && bareIgnoreAfter ((c :: s).drop 12)) || hasBareIgnore s
 
-/-- `_check_specific_rule_in_line` (same line) -/
+/-- `(?:thailint|design-lint):\s*ignore` matched at the head of a (lower-cased) suffix: what follows it -/
+def afterLineDirective (sLower : Str) : Option Str :=
+  let after :=
+    if "thailint:".toList.isPrefixOf sLower then some (sLower.drop 9)
+    else if "design-lint:".toList.isPrefixOf sLower then some (sLower.drop 12) else none
+  match after with
+  | none => none
+  | some r =>
+    let r := r.dropWhile isSpace
+    if "ignore".toList.isPrefixOf r then some (r.drop 6) else none
+
+/-- `re.search((?:thailint|design-lint):\s*ignore\[([^\]]+)\])`: the leftmost directive with a non-empty, closed bracket
+    (second argument: the suffix of the lower-cased line still to be searched) -/
+def directiveBracket (line : Str) : Str → Option Str
+  | [] => none
+  | c :: s =>
+    match afterLineDirective (c :: s) with
+    | some ('[' :: restLower) =>
+      let rest := line.drop (line.length - restLower.length)
+      let inner := rest.takeWhile (· != ']')
+      if inner.isEmpty || inner.length == rest.length then directiveBracket line s else some inner
+    | _ => directiveBracket line s
+
+/-- `re.search((?:thailint|design-lint):\s*ignore\s+([^\s#]+(?:\s+[^\s#]+)*))`: the words after the leftmost directive that
+    is followed by white space and a word (words end at a `#` or `//` comment) -/
+def directiveWords (line : Str) : Str → Option Str
+  | [] => none
+  | c :: s =>
+    match afterLineDirective (c :: s) with
+    | some (sp :: restLower) =>
+      if !isSpace sp then directiveWords line s else
+      let rest := line.drop (line.length - restLower.length)
+      let body := strip (cutAtSlashes true ((rest.dropWhile isSpace).takeWhile (· != '#')))
+      if body.isEmpty then directiveWords line s else some body
+    | _ => directiveWords line s
+
+/-- `_check_specific_rule_in_line` (same line): the rule list is the one of the directive itself, not the `ignore[...]` of another
+    tool's comment on the line (`# type: ignore[arg-type]  # thailint: ignore[magic-numbers]`) -/
 def sameLineRuleMatch (line ruleId : Str) : Bool :=
+  match directiveBracket line (lower line) with
+  | some inner => (bracketRules inner).any (ruleMatches ruleId)
+  | none =>
+    match directiveWords line (lower line) with
+    | some ws => (spaceRules ws).any (ruleMatches ruleId)
+    | none => hasBareIgnore (lower line) || containsSub (lower line) "ignore-all".toList
+
+/-- before the repair: the first `ignore[` anywhere on the line -/
+def sameLineRuleMatchOld (line ruleId : Str) : Bool :=
   match bracketAfter line "ignore".toList with
   | some inner => (bracketRules inner).any (ruleMatches ruleId)
   | none =>
@@ -167,9 +219,12 @@ def lineNextLineIgnores (prev ruleId : Str) : Bool := hasNextLineMarker prev && 
 
 /-- `_parse_ignore_start_rules` -/
 def startRules (line : Str) : Rules :=
-  match wordsAfter true line "ignore-start".toList with
-  | some ws => some (spaceRules ws)
-  | none => none
+  match bracketAfter line "ignore-start".toList with
+  | some inner => some (bracketRules inner)          -- `ignore-start[rule, rule]`, as the other directives are written
+  | none =>
+    match wordsAfter true line "ignore-start".toList with
+    | some ws => some (spaceRules ws)
+    | none => none
 
 /-! ## Block scope at the level of classified lines -/
 
